@@ -117,6 +117,7 @@ func (s *Store) FlowUUIDs(ver int) []string {
 type View struct {
 	store   *Store
 	ver     int
+	det     *version // detached version (fork variants), overrides ver
 	Fetched []string // flow UUIDs fetched through this view, in order
 	// OnFetch is called at every flow fetch (a seam call: the concurrency scheduler yields here)
 	OnFetch func()
@@ -124,7 +125,12 @@ type View struct {
 
 func (s *Store) View(ver int) *View { return &View{store: s, ver: ver} }
 
-func (v *View) v() *version { return v.store.versions[v.ver] }
+func (v *View) v() *version {
+	if v.det != nil {
+		return v.det
+	}
+	return v.store.versions[v.ver]
+}
 
 func (v *View) Channels() ([]assets.Channel, error)       { return v.v().base.Channels() }
 func (v *View) Classifiers() ([]assets.Classifier, error) { return v.v().base.Classifiers() }
@@ -176,6 +182,35 @@ func (v *View) FlowByName(name string) (assets.Flow, error) {
 }
 
 var _ assets.Source = (*View)(nil)
+
+// Detached builds a version derived from ver that is NOT part of the store's history (used
+// to enumerate hypothetical asset faults at a fork without disturbing the main line).
+func (s *Store) Detached(ver int, fn func(doc gen.J, flows []*storedFlow) []*storedFlow) (*version, error) {
+	c := s.versions[ver]
+	var doc gen.J
+	json.Unmarshal(c.docRaw, &doc)
+	fl := make([]*storedFlow, len(c.flows))
+	for i, f := range c.flows {
+		cp := *f
+		fl[i] = &cp
+	}
+	fl = fn(doc, fl)
+	nv := &version{n: -1, doc: doc, flows: fl}
+	if err := nv.build(); err != nil {
+		return nil, err
+	}
+	return nv, nil
+}
+
+// NewSADetached builds session assets over a detached version.
+func (s *Store) NewSADetached(env envs.Environment, v *version, ver int) (*SA, error) {
+	view := &View{store: s, ver: ver, det: v}
+	sa, err := engine.NewSessionAssets(env, view, nil)
+	if err != nil {
+		return nil, err
+	}
+	return &SA{SessionAssets: sa, View: view, Ver: ver}, nil
+}
 
 // SA is a SessionAssets together with the view it reads.
 type SA struct {
